@@ -323,6 +323,8 @@ class Run:
         cov.setdefault("known_findings_seen", self.known_seen)
         if getattr(self, "coqchk_summary", None):
             cov.setdefault("coqchk", self.coqchk_summary)
+        if getattr(self, "l1_skipped", None):
+            cov.setdefault("l1_probe_skipped", self.l1_skipped)
         if getattr(self, "findings_outcome", None) is not None:
             cov.setdefault("findings_replayed", self.findings_outcome)
         ev = {
@@ -403,7 +405,13 @@ def build_verifprobe(run):
     rc, out, err = sh(["go", "build", "-tags", "verif", "-o", str(b / "verifprobe"), "./cmd/verifprobe"],
                       cwd=REPO, env=go_env(), timeout=900)
     if rc != 0:
-        raise CheckBroken("go build -tags verif ./cmd/verifprobe failed: " + err[-3000:])
+        # The hooks are add-only wrappers of unexported helpers: a harmless refactoring of /repo
+        # (renaming an internal function) can stop them from compiling while every property still
+        # holds.  L1 is a supporting layer of the tie, so it degrades to "skipped" (recorded in the
+        # evidence) instead of breaking the check; L2 (the built binary) still decides.
+        run.log("L1 probe unavailable (go build -tags verif ./cmd/verifprobe failed): L1 skipped:", err[-600:])
+        run.l1_skipped = err[-600:]
+        return None
     return b / "verifprobe"
 
 
@@ -431,7 +439,10 @@ def go_quote(s):
 
 
 def probe_calls(probe, calls):
-    """calls: list of (function, [args]); returns list of decoded JSON results"""
+    """calls: list of (function, [args]); returns list of decoded JSON results
+    (None when the probe is unavailable, see build_verifprobe)"""
+    if probe is None:
+        return None
     inp = "".join(fn + "".join("\t" + go_quote(a) for a in args) + "\n" for fn, args in calls)
     rc, out, err = sh([str(probe)], input=inp, timeout=1200)
     if rc != 0:
